@@ -50,7 +50,8 @@ REQUIRED_THEOREMS = ["Gv.Props.C03." + n for n in [
     "phylip_counts_as_read", "phylip_header_consistent", "phylip_eos_blank", "phylip_eos_blank_to_eof",
     "phylip_multi_counts", "phylip_outcome_full", "phylip_multi_outcome",
     # Nexus: counts of the DIMENSIONS commands / TAXA block as the parser read them (Proofs/NexusHeader.lean)
-    "nexus_counts_as_read", "nexus_header_consistent_partial", "nexus_endblock_ends_block", "nexus_counterexample_nested_begin"]]
+    "nexus_counts_as_read", "nexus_header_consistent_partial", "nexus_endblock_ends_block", "nexus_counterexample_nested_begin",
+    "nexus_counterexample_empty_command"]]
 TRUSTED = ["bufio.Reader / UTF-8 rune decoding (inputs with bytes >= 128 are judged by the predicate only)",
            "python watchdog: hang = no answer within TIMEOUT",
            "tools/extract/fmtfacts.go: recognises the proposed guards syntactically; the models are parametric in these facts"]
